@@ -599,7 +599,9 @@ def run(scenario, world):
             for nm, v in (op.get('unknown') or {}).items():
                 if nm not in s.names:
                     d[nm] = v
-            if op.get('as_pairs'):
+            if op.get('as_pairs') == 'iter':
+                d = iter(list(d.items()))    # one-shot iterable of pairs
+            elif op.get('as_pairs'):
                 d = list(d.items())
             r = call(s.fix, d)
             if is_exc(r):
@@ -923,6 +925,11 @@ def generate(rng, index, tier):
             op = {'op': 'fix', 'set': st}
             if rng.random() < 0.1:
                 op['unknown'] = {'no such parameter': 1.0}
+            form = rng.random()
+            if form < 0.08:
+                op['as_pairs'] = True       # list of (name, value) pairs
+            elif form < 0.2:
+                op['as_pairs'] = 'iter'     # zip(...) / generator of pairs
             ops.append(op)
     return {'property': PROP, 'recipes': [recipe], 'ops': ops,
             'profile': {'kind': kind, 'faults': faults_on}}
